@@ -67,12 +67,14 @@ TStart(e) ==
 (* Every goroutine is parked.  A consumer leaving is not logged and is seen  *)
 (* only here (leaving earlier or later changes nothing a caller or callee   *)
 (* can see), so the lanes that can leave do so now; the state reached must  *)
-(* be one in which nothing moves by itself.                                 *)
+(* be one in which nothing moves by itself.  (Before Run, `alive` is left   *)
+(* open: MultiLine.Stop starts its exit signaller even then.)               *)
 TQuiet(e) ==
   /\ ExitSet({x \in LaneIds : CanExit(x)})
   /\ Quiescent'
-  /\ e.alive = (\E x \in LaneIds : up'[x])
   /\ e.term = (started /\ \A x \in LaneIds : ~up'[x])
+  /\ (\E x \in LaneIds : up'[x]) => e.alive    \* a live lane is a live goroutine
+  /\ e.term => ~e.alive                        \* after termination nothing of the executor is left
   /\ UNCHANGED last
 
 Consume ==
